@@ -9,6 +9,7 @@ mod oracle_p;
 mod oracle_ttl;
 mod plan;
 mod runner;
+mod selftest;
 mod check;
 
 fn main() {
